@@ -52,13 +52,13 @@ CONFIGS: Dict[str, Dict[str, List[Dict[str, Any]]]] = {
         ],
     },
     "RubiksCube": {
-        "quick": [_c("default"), _c("n2s3L7", cube_size=2, scrambles=3, time_limit=7), _c("n2s1L1", cube_size=2, scrambles=1, time_limit=1)],
+        "quick": [_c("default"), _c("n2s3L7", cube_size=2, scrambles=3, time_limit=7), _c("n2s1L1", cube_size=2, scrambles=1, time_limit=1), _c("mk_partlyL3", make_id="RubiksCube-partly-scrambled-v0", cube_size=3, scrambles=7, time_limit=3)],
         "thorough": [
             _c("default"), _c("n2s3L7", cube_size=2, scrambles=3, time_limit=7),
             _c("n4s7L20", cube_size=4, scrambles=7, time_limit=20), _c("n5s1L3", cube_size=5, scrambles=1, time_limit=3),
             _c("n3s0L2", cube_size=3, scrambles=0, time_limit=2), _c("n7s100L200", cube_size=7, scrambles=100, time_limit=200),
             _c("n6s2L1", cube_size=6, scrambles=2, time_limit=1), _c("n2s1L1", cube_size=2, scrambles=1, time_limit=1),
-            _c("n3s2L2", cube_size=3, scrambles=2, time_limit=2),
+            _c("n3s2L2", cube_size=3, scrambles=2, time_limit=2), _c("mk_partlyL3", make_id="RubiksCube-partly-scrambled-v0", cube_size=3, scrambles=7, time_limit=3), _c("mk_partlyL33", make_id="RubiksCube-partly-scrambled-v0", cube_size=3, scrambles=7, time_limit=33), _c("mk_L2", make_id="RubiksCube-v0", time_limit=2)
         ],
     },
     "SlidingTilePuzzle": {
@@ -66,7 +66,7 @@ CONFIGS: Dict[str, Dict[str, List[Dict[str, Any]]]] = {
         "thorough": [
             _c("default"), _c("g2m5L3", grid_size=2, moves=5, time_limit=3), _c("g3m20L7", grid_size=3, moves=20, time_limit=7),
             _c("g4m50sparse", grid_size=4, moves=50, reward="sparse", time_limit=30), _c("g3m1L2", grid_size=3, moves=1, time_limit=2),
-            _c("g2m0L1", grid_size=2, moves=0, time_limit=1), _c("g3m3sparse", grid_size=3, moves=3, reward="sparse", time_limit=20),
+            _c("g2m0L1", grid_size=2, moves=0, time_limit=1), _c("g3m3sparse", grid_size=3, moves=3, reward="sparse", time_limit=20), _c("mk_L3", make_id="SlidingTilePuzzle-v0", time_limit=3)
         ],
     },
     "Sudoku": {
@@ -123,7 +123,7 @@ CONFIGS: Dict[str, Dict[str, List[Dict[str, Any]]]] = {
         "thorough": [
             _c("default"), _c("r4c4L3", rows=4, cols=4, time_limit=3), _c("r6c5L3", rows=6, cols=5, time_limit=3), _c("r6c5L7", rows=6, cols=5, time_limit=7),
             _c("r5c12L30", rows=5, cols=12, time_limit=30), _c("r10c6L2", rows=10, cols=6, time_limit=2),
-            _c("r7c4L1", rows=7, cols=4, time_limit=1), _c("r5c8L12", rows=5, cols=8, time_limit=12),
+            _c("r7c4L1", rows=7, cols=4, time_limit=1), _c("r5c8L12", rows=5, cols=8, time_limit=12), _c("mk_L4", make_id="Tetris-v0", time_limit=4)
         ],
     },
     "Cleaner": {
@@ -134,7 +134,7 @@ CONFIGS: Dict[str, Dict[str, List[Dict[str, Any]]]] = {
             _c("r11c5a3p0", rows=11, cols=5, agents=3, penalty=0.0), _c("r3c3a4L3", rows=3, cols=3, agents=4, time_limit=3),
             _c("r7c9a2L2", rows=7, cols=9, agents=2, time_limit=2), _c("r9c7a2L1", rows=9, cols=7, agents=2, time_limit=1),
             _c("r5c11a2", rows=5, cols=11, agents=2), _c("r4c7a1", rows=4, cols=7, agents=1), _c("r7c4a2", rows=7, cols=4, agents=2),
-            _c("r6c5a2pint", rows=6, cols=5, agents=2, penalty=1), _c("r5c6a2p0", rows=5, cols=6, agents=2, penalty=0.0),
+            _c("r6c5a2pint", rows=6, cols=5, agents=2, penalty=1), _c("r5c6a2p0", rows=5, cols=6, agents=2, penalty=0.0), _c("mk_L5", make_id="Cleaner-v0", time_limit=5)
         ],
     },
     "Connector": {
@@ -146,7 +146,7 @@ CONFIGS: Dict[str, Dict[str, List[Dict[str, Any]]]] = {
             _c("w5a8L20", grid_size=5, agents=8, time_limit=20), _c("u4a3L2", gen="uniform", grid_size=4, agents=3, time_limit=2),
             _c("w6a4L1", grid_size=6, agents=4, time_limit=1), _c("u6a4", gen="uniform", grid_size=6, agents=4),
             _c("u5a4rwL20", gen="uniform", grid_size=5, agents=4, time_limit=20, reward_coeffs=[2.0, -0.5]),
-            _c("w5a3rwintL15", grid_size=5, agents=3, time_limit=15, reward_coeffs=[3, -1]),
+            _c("w5a3rwintL15", grid_size=5, agents=3, time_limit=15, reward_coeffs=[3, -1]), _c("mk_L4", make_id="Connector-v2", time_limit=4)
         ],
     },
     "CVRP": {
@@ -172,23 +172,27 @@ CONFIGS: Dict[str, Dict[str, List[Dict[str, Any]]]] = {
             _c("g6a3f2v1L20", grid_size=6, agents=3, food=2, fov=1, time_limit=20),
             # constructor arguments given as Python ints where floats are documented (dtype promotion paths)
             _c("g6a2f2v6rawpenintL15", grid_size=6, agents=2, food=2, fov=6, normalize=False, penalty=1, time_limit=15),
-            _c("g6a2f2v2gridpenint", grid_size=6, agents=2, food=2, fov=2, grid_obs=True, penalty=2, time_limit=25),
+            _c("g6a2f2v2gridpenint", grid_size=6, agents=2, food=2, fov=2, grid_obs=True, penalty=2, time_limit=25), _c("mk_L5", make_id="LevelBasedForaging-v0", time_limit=5)
         ],
     },
     "Maze": {
-        "quick": [_c("default"), _c("r5c9L7", rows=5, cols=9, time_limit=7), _c("r4c7", rows=4, cols=7), _c("r7c4", rows=7, cols=4)],
+        "quick": [_c("default"), _c("r5c9L7", rows=5, cols=9, time_limit=7), _c("r4c7", rows=4, cols=7), _c("r7c4", rows=7, cols=4), _c("mk_L4", make_id="Maze-v0", time_limit=4)],
         "thorough": [
             _c("default"), _c("r3c3", rows=3, cols=3), _c("r5c9L7", rows=5, cols=9, time_limit=7), _c("r9c4L3", rows=9, cols=4, time_limit=3),
             _c("toy", gen="toy"), _c("r5c9", rows=5, cols=9), _c("r7c6L2", rows=7, cols=6, time_limit=2), _c("r6c7L1", rows=6, cols=7, time_limit=1),
-            _c("r4c7", rows=4, cols=7), _c("r7c4", rows=7, cols=4),
+            _c("r4c7", rows=4, cols=7), _c("r7c4", rows=7, cols=4), _c("mk_L4", make_id="Maze-v0", time_limit=4)
         ],
     },
+    # MMST: the class docstring documents `connected_nodes` as (num_agents, time_limit); a user generator whose `max_step` buffer
+    # is shorter than the time limit contradicts that, and once the buffer is full the route bookkeeping (hence mask and
+    # observation) is unspecified. Such a configuration is only used for the properties that do not depend on it: the time limit
+    # itself (C11), the protocol (C03) and spec conformance (C01).
     "MMST": {
         "quick": [_c("default"), _c("n12e18d4a2p3L7", nodes=12, edges=18, degree=4, agents=2, per_agent=3, time_limit=7),
                   _c("n13e20d5a2p3", nodes=13, edges=20, degree=5, agents=2, per_agent=3, time_limit=30),
                   # small dense graphs with 3 and 4 agents: several agents are often adjacent to the same node
                   _c("n10e16d5a3p2", nodes=10, edges=16, degree=5, agents=3, per_agent=2, time_limit=20),
-                  _c("n12e22d6a4p2", nodes=12, edges=22, degree=6, agents=4, per_agent=2, time_limit=20)],
+                  _c("n12e22d6a4p2", nodes=12, edges=22, degree=6, agents=4, per_agent=2, time_limit=20), _c("n12e18d5a2p3ms9L14", nodes=12, edges=18, degree=5, agents=2, per_agent=3, time_limit=14, max_step=9, props=["C01", "C03", "C11"])],
         "thorough": [
             _c("default"), _c("n12e18d4a2p3L7", nodes=12, edges=18, degree=4, agents=2, per_agent=3, time_limit=7),
             _c("n20e30d5a3p3L3", nodes=20, edges=30, degree=5, agents=3, per_agent=3, time_limit=3),
@@ -198,7 +202,7 @@ CONFIGS: Dict[str, Dict[str, List[Dict[str, Any]]]] = {
             _c("n20e30d3a3p3", nodes=20, edges=30, degree=3, agents=3, per_agent=3, time_limit=30),
             _c("n13e20d5a2p3", nodes=13, edges=20, degree=5, agents=2, per_agent=3, time_limit=30),
             _c("n10e16d5a3p2", nodes=10, edges=16, degree=5, agents=3, per_agent=2, time_limit=20),
-            _c("n12e22d6a4p2", nodes=12, edges=22, degree=6, agents=4, per_agent=2, time_limit=20),
+            _c("n12e22d6a4p2", nodes=12, edges=22, degree=6, agents=4, per_agent=2, time_limit=20), _c("mk_L6", make_id="MMST-v0", time_limit=6), _c("n12e18d5a2p3ms9L14", nodes=12, edges=18, degree=5, agents=2, per_agent=3, time_limit=14, max_step=9, props=["C01", "C03", "C11"]), _c("n12e18d5a2p3ms30L6", nodes=12, edges=18, degree=5, agents=2, per_agent=3, time_limit=6, max_step=30)
         ],
     },
     "MultiCVRP": {
@@ -211,7 +215,7 @@ CONFIGS: Dict[str, Dict[str, List[Dict[str, Any]]]] = {
     "PacMan": {
         "quick": [_c("default"), _c("L7", time_limit=7), _c("small12x13L40", maze="small", time_limit=40), _c("small12x13L400", maze="small", time_limit=400)],
         "thorough": [_c("default"), _c("L1", time_limit=1), _c("L2", time_limit=2), _c("L3", time_limit=3), _c("L7", time_limit=7), _c("L60", time_limit=60),
-                     _c("small12x13L40", maze="small", time_limit=40), _c("small12x13L3", maze="small", time_limit=3), _c("small12x13L400", maze="small", time_limit=400)],
+                     _c("small12x13L40", maze="small", time_limit=40), _c("small12x13L3", maze="small", time_limit=3), _c("small12x13L400", maze="small", time_limit=400), _c("mk_L5", make_id="PacMan-v1", time_limit=5)],
     },
     "RobotWarehouse": {
         "quick": [_c("default"), _c("s2x1h3a2r1q2L7", shelf_rows=2, shelf_cols=1, height=3, agents=2, sensor=1, queue=2, time_limit=7),
@@ -224,15 +228,15 @@ CONFIGS: Dict[str, Dict[str, List[Dict[str, Any]]]] = {
             _c("s2x1h3a2r1q2L2", shelf_rows=2, shelf_cols=1, height=3, agents=2, sensor=1, queue=2, time_limit=2),
             _c("s1x3h3a1r1q2L1", shelf_rows=1, shelf_cols=3, height=3, agents=1, sensor=1, queue=2, time_limit=1),
             _c("s1x5h2a4r1q3L9", shelf_rows=1, shelf_cols=5, height=2, agents=4, sensor=1, queue=3, time_limit=9),
-            _c("s1x7h1a5r2q4", shelf_rows=1, shelf_cols=7, height=1, agents=5, sensor=2, queue=4, time_limit=40),
+            _c("s1x7h1a5r2q4", shelf_rows=1, shelf_cols=7, height=1, agents=5, sensor=2, queue=4, time_limit=40), _c("mk_L4", make_id="RobotWarehouse-v0", time_limit=4)
         ],
     },
     "Snake": {
-        "quick": [_c("default"), _c("r3c5L7", rows=3, cols=5, time_limit=7), _c("r3c4L60", rows=3, cols=4, time_limit=60)],
+        "quick": [_c("default"), _c("r3c5L7", rows=3, cols=5, time_limit=7), _c("r3c4L60", rows=3, cols=4, time_limit=60), _c("mk_L5", make_id="Snake-v1", time_limit=5)],
         "thorough": [
             _c("default"), _c("r2c2L3", rows=2, cols=2, time_limit=3), _c("r3c5L7", rows=3, cols=5, time_limit=7),
             _c("r6c4L200", rows=6, cols=4, time_limit=200), _c("r4c6L2", rows=4, cols=6, time_limit=2), _c("r5c3L1", rows=5, cols=3, time_limit=1),
-            _c("r3c4L60", rows=3, cols=4, time_limit=60),
+            _c("r3c4L60", rows=3, cols=4, time_limit=60), _c("mk_L5", make_id="Snake-v1", time_limit=5)
         ],
     },
     "Sokoban": {
@@ -324,6 +328,12 @@ def build(env: str, cfg: Dict[str, Any]):
 
     c = {k: v for k, v in cfg.items() if k != "id"}
     tl = {"time_limit": c["time_limit"]} if "time_limit" in c else {}
+    if "make_id" in c:
+        # built through the registry with a caller override, the way most users construct environments; the other keys of
+        # such a configuration only tell the models what the registered id documents (cube size, scramble length ...)
+        import jumanji
+
+        return jumanji.make(c["make_id"], **tl)
     if env == "Game2048":
         return E.Game2048(**({"board_size": c["board_size"]} if "board_size" in c else {}))
     if env == "GraphColoring":
@@ -511,7 +521,7 @@ def build(env: str, cfg: Dict[str, Any]):
         if "nodes" in c:
             kw["generator"] = SplitRandomGenerator(
                 num_nodes=c["nodes"], num_edges=c["edges"], max_degree=c["degree"], num_agents=c["agents"],
-                num_nodes_per_agent=c["per_agent"], max_step=c.get("time_limit", 70),
+                num_nodes_per_agent=c["per_agent"], max_step=c.get("max_step", c.get("time_limit", 70)),
             )
         return E.MMST(**kw)
     if env == "MultiCVRP":
